@@ -24,7 +24,7 @@ func init() {
 	kit.Register(&kit.PropertySpec{
 		ID: "C01", Engine: "netsim",
 		Profiles:  []kit.ProfileSpec{{Name: "faultfree", Weight: 1}, {Name: "net", Weight: 2}, {Name: "crash", Weight: 3}, {Name: "byz", Weight: 3}},
-		QuickRuns: 320, QuickBudgetS: 75, ThoroughRuns: 20000, ThoroughBudgetS: 900,
+		QuickRuns: 320, QuickBudgetS: 60, ThoroughRuns: 20000, ThoroughBudgetS: 900,
 		Rule: "one run = one tape: cluster size, timeouts, latencies, fault rates, crash points, workload and every delivery/lock-grant order are drawn from it; " +
 			"non-trivial = every correct node finalized at least one height; distinct = distinct event-log hash (every send, delivery, drop, crash image, restart, lock-relevant delivery order and finalization).",
 		QuickProbes:     []string{"target_reached"},
@@ -37,7 +37,7 @@ func init() {
 	kit.Register(&kit.PropertySpec{
 		ID: "C02", Engine: "netsim",
 		Profiles:  []kit.ProfileSpec{{Name: "crash", Weight: 1}},
-		QuickRuns: 240, QuickBudgetS: 75, ThoroughRuns: 20000, ThoroughBudgetS: 900,
+		QuickRuns: 240, QuickBudgetS: 60, ThoroughRuns: 20000, ThoroughBudgetS: 900,
 		Rule: "crash-heavy cluster runs (1-5 crash-restarts per run, most at WAL write/sync crash points, torn round/lock/commit WAL tails, restart into continued traffic); " +
 			"oracle 1: at most one distinct signed content per (correct validator, height, round, kind) over everything that ever appeared on the wire from any node plus what a restarted validator finds in its own WAL image; " +
 			"oracle 2: the validator's own vote/proposal is covered by an acknowledged sync of its round WAL at the moment it is handed to the network. " +
@@ -52,10 +52,11 @@ func init() {
 	kit.Register(&kit.PropertySpec{
 		ID: "C04", Engine: "netsim",
 		Profiles:  []kit.ProfileSpec{{Name: "net", Weight: 2}, {Name: "storm", Weight: 3}},
-		QuickRuns: 240, QuickBudgetS: 75, ThoroughRuns: 20000, ThoroughBudgetS: 900,
+		QuickRuns: 240, QuickBudgetS: 60, ThoroughRuns: 20000, ThoroughBudgetS: 900,
 		Rule: "run-time monitor on the vote sets inside live validators: after every step in which a node ran, every (round, type) vote set is recounted slot by slot (exact 3k>2n arithmetic) and compared with what it reports " +
 			"(+2/3-any, decision, at most one decision, decision persists while the set is not discarded); vote sequences come from the network schedule (loss, duplication, reordering, vote-list relays) and, in profile storm, from Byzantine validators that re-vote with conflicting decisions and fresh timestamps; " +
 			"non-trivial = at least one vote set reached a decision and every correct node finalized a height; distinct = distinct event-log hash.",
+		CrashIsViolation: true, // a vote set that panics while tallying reports nothing
 		QuickProbes:     []string{"voteset_has_decision"},
 		EssentialProbes: []string{"voteset_has_decision", "byz_conflicting_vote_sent", "duplicate"},
 		Assumptions:     netsimAssume, Real: netsimReal, Stubbed: netsimStubbed, DesignRef: "4.1",
@@ -67,7 +68,7 @@ func init() {
 		kit.Register(&kit.PropertySpec{
 			ID: id, Engine: "netsim",
 			Profiles:  []kit.ProfileSpec{{Name: "forge", Weight: 1}},
-			QuickRuns: 240, QuickBudgetS: 75, ThoroughRuns: 20000, ThoroughBudgetS: 900,
+			QuickRuns: 240, QuickBudgetS: 60, ThoroughRuns: 20000, ThoroughBudgetS: 900,
 			Rule: "cluster runs with 1-2 Byzantine validators (f < n/3) that are real nodes behind an adversarial proxy: whenever a Byzantine validator is the legitimate proposer the proxy may swap its block for a forged one (" + what + "), re-signs proposal and block parts and votes for the forgery; network faults as in the net profile. " +
 				"Oracle: a correct validator that signs a non-nil vote for a forged part set has accepted the block at import; that must never happen for a forgery the harness' own verifier judges invalid (class " + class + "). " +
 				"non-trivial = at least one forged block was proposed and every correct node finalized a height; distinct = distinct event-log hash.",
@@ -89,7 +90,7 @@ func init() {
 	kit.Register(&kit.PropertySpec{
 		ID: "C06", Engine: "netsim",
 		Profiles:  []kit.ProfileSpec{{Name: "byz", Weight: 1}, {Name: "storm", Weight: 2}},
-		QuickRuns: 240, QuickBudgetS: 75, ThoroughRuns: 20000, ThoroughBudgetS: 900,
+		QuickRuns: 240, QuickBudgetS: 60, ThoroughRuns: 20000, ThoroughBudgetS: 900,
 		Rule: "cluster runs with equivocating Byzantine validators (conflicting prevotes/precommits/proposals to disjoint peers, re-votes with fresh timestamps, replays of old rounds and heights, duplicates); every double-sign report a correct node issues to its service manager is decoded by the harness and must be a genuine conflict (same signer, height, round, type, compatible network, different signed content); " +
 			"non-trivial = at least one Byzantine conflicting message was sent and every correct node finalized a height; distinct = distinct event-log hash.",
 		QuickProbes:     []string{"byz_conflicting_vote_sent"},
